@@ -793,6 +793,34 @@ func Exhaustive(api string, maxLen int) []string {
 	return ops
 }
 
+// ExhaustiveRaw: bodies that end the raw *sql.Tx themselves (Commit / Rollback, accepted / refused by the driver) after
+// 0..maxLen statements and then return nil / an error / panic; a statement fault before it (the raw end is not
+// reached); the Commit / Rollback answers of the plan (which go-zero's own end never gets to use).
+func ExhaustiveRaw(api string, maxLen int) []string {
+	var ops []string
+	for n := 0; n <= maxLen; n++ {
+		for _, raw := range []string{"c", "C", "r", "R"} {
+			for _, end := range []string{"ok", "err:plain", "err:txdone", "panic", "panicint"} {
+				for _, ans := range []string{"ok", "fail", "fail:txdone:b"} {
+					st := strings.Repeat("X", n)
+					if st == "" {
+						st = "-"
+					}
+					ops = append(ops, fmt.Sprintf("tx api=%s begin=ok bad=%d stmts=%s end=%s commit=%s rollback=%s brk=allow cancel=- raw=%s",
+						api, n%2, st, end, ans, ans, raw))
+				}
+			}
+			if n > 0 {
+				ops = append(ops, fmt.Sprintf("tx api=%s begin=ok bad=0 stmts=%s end=ok commit=ok rollback=ok brk=allow cancel=- raw=%s",
+					api, strings.Repeat("X", n-1)+"f", raw))
+				ops = append(ops, fmt.Sprintf("tx api=%s begin=fail bad=0 stmts=%s end=ok commit=ok rollback=ok brk=allow cancel=- raw=%s",
+					api, strings.Repeat("X", n), raw))
+			}
+		}
+	}
+	return ops
+}
+
 // ExhaustiveAcc sweeps the acceptable-error classes over every place an error of a transaction can come from
 // (the body's own error, a QueryRow that finds no row at statement k, the driver's Commit error, the driver's
 // Rollback error after a body error / after a panic), each in its forms (Is method / wrapped / bare sentinel),
@@ -859,6 +887,8 @@ type Sess struct {
 	QueryRowPartial func(q string) error
 	// RawDB: RawDB() of a connection made from the transaction's session: (a *sql.DB came back, the error)
 	RawDB func() (bool, error)
+	// RawEnd: Commit() (true) / Rollback() on the transaction's raw *sql.Tx (nil: out of reach)
+	RawEnd func(commit bool) error
 	// CV: "1" the context the body was given carries the value the caller put into the context it passed to
 	// TransactCtx, "0" it does not, "-" the entry point hands the body no context
 	CV string
@@ -1047,7 +1077,7 @@ func RunOp(op []string, h Hooks) string {
 			// the body length steers the form of the value: the standard sentinel itself / a value that answers
 			// errors.Is through its Is method / a value that wraps the sentinel
 			variant := len(stmts) % 3
-			if rbBare && variant == 0 {
+			if (rbBare || m["raw"] == "c" || m["raw"] == "C" || m["raw"] == "r" || m["raw"] == "R") && variant == 0 {
 				variant = 1
 			}
 			endErr = DefaultBodyErr(cls, variant)
@@ -1056,6 +1086,14 @@ func RunOp(op []string, h Hooks) string {
 			return "unsupported-class " + cls
 		}
 	}
+	raw := m["raw"]
+	if raw == "-" {
+		raw = ""
+	}
+	if raw != "" && raw != "c" && raw != "C" && raw != "r" && raw != "R" {
+		return "bad-op raw=" + raw
+	}
+	rawReached := false
 	runs := 0
 	bodyOut := "notrun"
 	cv := "-"
@@ -1167,6 +1205,18 @@ func RunOp(op []string, h Hooks) string {
 				return e
 			}
 		}
+		if raw != "" {
+			// the body ends the raw Tx itself (the driver answers as the letter says), looks away from the result and
+			// carries on to its own end
+			if s.RawEnd == nil {
+				panic("c14 harness: the raw *sql.Tx is out of reach here")
+			}
+			commit, ok := raw == "c" || raw == "C", raw == "c" || raw == "r"
+			h.Plan.CommitOk, h.Plan.RbOk, h.Plan.CommitErr, h.Plan.RbErr = ok, ok, nil, nil
+			h.Plan.CommitPanics, h.Plan.RbPanics = false, false
+			rawReached = true
+			s.RawEnd(commit)
+		}
 		switch m["end"] {
 		case "ok":
 			bodyOut = "nil"
@@ -1232,6 +1282,14 @@ func RunOp(op []string, h Hooks) string {
 		bare = bareName["rollback"]
 	} else if strings.HasSuffix(lg, "C!") {
 		bare = bareName["commit"]
+	}
+	if rawReached {
+		// go-zero's own Commit / Rollback is refused by database/sql with the bare sql.ErrTxDone
+		if bodyOut == "nil" {
+			bare = map[error]string{sql.ErrTxDone: "commit.txdone"}
+		} else {
+			bare = map[error]string{sql.ErrTxDone: "rollback.txdone"}
+		}
 	}
 	coreObs := ""
 	if core.Seen {
